@@ -74,7 +74,7 @@ def judge_trace(ctx, path, per=6000, workers=12):
     holds its whole chunk as TLA+ values (~80 bytes of heap per byte of JSON), and 16 judges with
     30 MB chunks each exhausted the memory of the shared box."""
     lines = open(path).read().splitlines()
-    per = min(per, max(1500, (len(lines) + vlib.NCPU - 1) // vlib.NCPU))
+    per = min(per, max(4000, (len(lines) + vlib.NCPU - 1) // vlib.NCPU))
     chunks = []
     cur = []
     start = 0
@@ -286,6 +286,8 @@ def run(ctx):
     iscripts = vlib._verdict_lines(r.out).get("SCRIPT", [])
     if len(iscripts) < 1000:
         raise vlib.Infra("impl script emission produced only %d scripts" % len(iscripts))
+    if not thorough:
+        iscripts = iscripts[(ctx.seed + 1) % 2::2]
     scripts += iscripts
     spath = os.path.join(ctx.workdir, "scripts.ndjson")
     vlib.write_ndjson(spath, scripts)
@@ -299,7 +301,7 @@ def run(ctx):
         count_classes(ctx, lines[:200000])
         ctx.sample({"tlc_script": scripts[len(scripts) // 2]})
     # 5. code -> spec
-    nh, ml = (5000, 40) if thorough else (1000, 40)
+    nh, ml = (5000, 40) if thorough else (700, 40)
     tpath = os.path.join(ctx.workdir, "recorded.ndjson")
     rc, out = vlib.run_harness(binary, ["record", tpath, ctx.seed, nh, ml], timeout=3000)
     lines = judge_file(ctx, tpath, "random history", rc, out)
